@@ -89,6 +89,16 @@ def handleFullBash (args : List String) : String :=
     | .panic => "PANIC"
     | .diverge => "DIVERGE"
 
+/-- TRACE <hex>: every lexeme (blanks and comments included) as ty:texthex -/
+def handleTrace (hex : String) : String :=
+  match bytesOfHex hex with
+  | none => "BADREQ"
+  | some src =>
+    match Lexer.tokenizeTrace src with
+    | .ok (ls, _) => "OK " ++ " ".intercalate (ls.map fun l => s!"{l.ty}:{hexOfBytes l.text}")
+    | .err => "ERR"
+    | .diverge => "DIVERGE"
+
 def handle (line : String) : String :=
   if line.startsWith "FULLBASH " then handleFullBash ((line.drop 9).toString.splitOn " ") else
   if line.startsWith "PARSE " then handleParse ((line.drop 6).toString.splitOn " ") else
@@ -96,6 +106,8 @@ def handle (line : String) : String :=
   match line.splitOn " " with
   | ["LEX"] => handleLex ""
   | ["LEX", hex] => handleLex hex
+  | ["TRACE"] => handleTrace ""
+  | ["TRACE", hex] => handleTrace hex
   | _ => "BADREQ"
 
 partial def loop (h : IO.FS.Stream) (out : IO.FS.Stream) : IO Unit := do
